@@ -278,8 +278,20 @@ class C17Episode(Episode):
                               once=(pid, ch),
                               writer='running' if p.alive else 'self_exited',
                               closer=self.closer(pid))
-                elif supervised or ext:
+                elif supervised:
+                    # what a worker wrote while it was running is owed to the
+                    # stream also when the daemon terminates it afterwards:
+                    # everything the pipe accepted was written before the
+                    # daemon closed its end
                     self.probes['tail_lost_of_terminated_worker'] += 1
+                    self.viol('output_lost',
+                              'pid %d (terminated by the daemon) wrote %d '
+                              'bytes to %s before the daemon closed the pipe, '
+                              'the stream received %d' % (pid, w, ch, got),
+                              once=(pid, ch), writer='terminated',
+                              closer=self.closer(pid))
+                elif ext:
+                    self.probes['tail_lost_of_externally_killed_worker'] += 1
 
     def closer(self, pid):
         for wt in self.world.arbiter.watchers:
